@@ -413,6 +413,19 @@ func BackwardOpt(v ssa.Value, followCall func(*ssa.Call) bool) map[ssa.Value]boo
 					for _, s := range ReachingStores(t) {
 						visit(s.Val)
 					}
+					// a composite built in place (struct / array literal): its parts are stored through sub-addresses
+					composite := false
+					for _, r := range *al.Referrers() {
+						switch r.(type) {
+						case *ssa.FieldAddr, *ssa.IndexAddr:
+							composite = true
+						}
+					}
+					if composite {
+						for _, s := range storesInto(al) {
+							visit(s.Val)
+						}
+					}
 					break
 				}
 				visit(t.X)
